@@ -22,6 +22,7 @@ CHECKS = {
     "C03": "vlib.checks.c03",
     "C04": "vlib.checks.c04",
     "C05": "vlib.checks.c05",
+    "C06": "vlib.checks.c06",
     "C07": "vlib.checks.c07",
     "C08": "vlib.checks.c08",
     "C10": "vlib.checks.c10",
@@ -33,6 +34,7 @@ CHECKS = {
     "C16": "vlib.checks.c16",
     "C17": "vlib.checks.c17",
     "C18": "vlib.checks.c18",
+    "C19": "vlib.checks.c19",
     "C20": "vlib.checks.c20",
 }
 
